@@ -41,7 +41,7 @@ try:
                            cwd=d, capture_output=True, text=True)
         tail = r.stdout.strip().splitlines()[-1:] if r.stdout.strip() else ['?']
         print('SUITE (in scratch copy): exit=%d %s' % (r.returncode, tail[0]))
-    env = dict(os.environ, PYDL_TREE=d)
+    env = dict(os.environ, PYDL_TREE=d, VERIF_REPLAY_DIR=os.path.join(d, 'replays'))   # replays of a mutation run die with the scratch copy
     for prop in a.props:
         r = subprocess.run([os.path.join(V, 'check'), prop, '--tier', a.tier, '--no-evidence'], env=env, capture_output=True, text=True)
         lines = [l for l in r.stdout.splitlines() if l.startswith(('VIOLATION', '  sig=', 'HARNESS', prop))]
@@ -52,6 +52,3 @@ try:
             print(r.stdout[-1500:], r.stderr[-1500:])
 finally:
     shutil.rmtree(d, ignore_errors=True)
-    # replays written during a mutation run are not kept
-    for prop in a.props:
-        shutil.rmtree(os.path.join(V, 'replays', prop), ignore_errors=True)
